@@ -202,10 +202,9 @@ def loadNumber (j : JVal) : Option Unit :=
 
 /-! ### currencies, pairs, FX markets -/
 
-/-- `Ccy::try_new`: lower-case, exactly three bytes (Rust's Unicode lower-casing is modelled as ASCII
-lower-casing) -/
+/-- `Ccy::try_new`: lower-case, exactly three bytes (Rust's Unicode lower-casing is modelled by `lowerStr`) -/
 def ccyTryNew (name : String) : Option String :=
-  let c := name.toLower
+  let c := lowerStr name
   if c.utf8ByteSize = 3 then some c else none
 
 /-- `FXPair::try_new` -/
@@ -548,5 +547,63 @@ def loadTagged (table : String → Option Cal) (j : JVal) : Outcome Loaded :=
     else if tag = "PPSplineDual2" then ofOpt (.spline tag) (loadSpline loadDual2 v)
     else if tag = "Curve" then ofOpt .curve (loadCurve table v)
     else .err
+
+/-! ### the documents `to_json` writes (document side of C16; the loader theorems show they are accepted) -/
+
+def natNum (n : Nat) : JNum := ⟨false, n, 0, true⟩
+
+/-- ndarray's document for a one-dimensional array -/
+def nd1 (xs : List JNum) : JVal :=
+  .obj [("v", .num (natNum 1)), ("dim", .arr [.num (natNum xs.length)]), ("data", .arr (xs.map .num))]
+
+/-- ndarray's document for an `r × c` array given flat -/
+def nd2 (r c : Nat) (xs : List JNum) : JVal :=
+  .obj [("v", .num (natNum 1)), ("dim", .arr [.num (natNum r), .num (natNum c)]), ("data", .arr (xs.map .num))]
+
+/-- the document `Dual::to_json` writes -/
+def writeDual (re : JNum) (names : List String) (d : List JNum) : JVal :=
+  .obj [("real", .num re), ("vars", .arr (names.map .str)), ("dual", nd1 d)]
+
+/-- the document `Dual2::to_json` writes -/
+def writeDual2 (re : JNum) (names : List String) (d h : List JNum) : JVal :=
+  .obj [("real", .num re), ("vars", .arr (names.map .str)), ("dual", nd1 d),
+        ("dual2", nd2 names.length names.length h)]
+
+/-- the document `Curve::to_json` writes for a float-noded curve with a named calendar: `keys` are the node
+timestamps as the integer literals serde_json writes for `i64` map keys -/
+def writeCurveF64 (keys : List String) (vals : List JNum) (interp id conv modi : String) (base : Option JNum)
+    (cal : String) : JVal :=
+  .obj [("inner", .obj [
+    ("nodes", .obj [("F64", .obj (keys.zip (vals.map .num)))]),
+    ("interpolator", .obj [(interp, .obj [])]),
+    ("id", .str id),
+    ("convention", .str conv),
+    ("modifier", .str modi),
+    ("index_base", match base with | some b => .num b | none => .null),
+    ("calendar", .obj [("NamedCal", .obj [("name", .str cal)])])])]
+
+/-- the document `PPSplineF64::to_json` writes: order, knots, coefficients (null before `csolve`), count -/
+def writeSplineF64 (k : Nat) (t : List JNum) (c : Option (List JNum)) (n : Nat) : JVal :=
+  .obj [("inner", .obj [("k", .num (natNum k)), ("t", .arr (t.map .num)),
+    ("c", match c with | some xs => nd1 xs | none => .null), ("n", .num (natNum n))])]
+
+/-- a stored quote: currency names, float rate token, settlement as (written text, seconds) or none -/
+structure WQuote where
+  lhs : String
+  rhs : String
+  rate : JNum
+  settlement : Option (String × Int)
+
+def ccyDoc (c : String) : JVal := .obj [("name", .str c)]
+
+def writeFXRate (q : WQuote) : JVal :=
+  .obj [("pair", .arr [ccyDoc q.lhs, ccyDoc q.rhs]), ("rate", .obj [("F64", .num q.rate)]),
+        ("settlement", match q.settlement with | some (s, _) => .str s | none => .null)]
+
+/-- the document `FXRates::to_json` writes: the quotes and the currency list (first = base) -/
+def writeFXRates (qs : List WQuote) (cs : List String) : JVal :=
+  .obj [("fx_rates", .arr (qs.map writeFXRate)), ("currencies", .arr (cs.map ccyDoc))]
+
+def WQuote.shape (q : WQuote) : QuoteShape := ⟨q.lhs, q.rhs, q.settlement.map (·.2)⟩
 
 end Rateslib.Load
